@@ -53,6 +53,9 @@ TRUSTED = [
     "disjoint keys, raises ValueError otherwise, and (cycler 0.12) raises StopIteration when both cycles are EMPTY",
     "x_points / y_points are local, append-only lists (checked syntactically on the real AST on every run: bound once to [], used only "
     "as receiver of .append(v) and as argument of cycler()); 'every element satisfies P' is proved per appended pair",
+    "loop cuts (contracts/loopcut.py): establish / havoc / arbitrary iteration of the real body / preserve / exit; the havoc set is the "
+    "syntactic write set of the body, complete because the body is checked (on every run) to only bind local names, append to the two "
+    "point lists and call abs/int/range/np.cos/np.sin",
     "the reading of 'tilted rectangle' is the one of the carriers' own geometry: |v| <= y_range/2 and |u - (v/a)/tan(tilt+pi/2)| <= "
     "x_range/2 (a shear of the rectangle by `tilt`, in ring-normalised coordinates v/a)",
     "the x_num by y_num grid is centred: spacing range/(num-1), a single column/row (num == 1) lies at the centre",
